@@ -61,13 +61,18 @@ def call(S, H, V, E, T, D, forms):
 
 
 def judge(case):
+    from molgri.molecules.transitions import SQRA
     S, H, V, E = build_inputs(case)
     T, D = float(case["T"]), float(case["D"])
     forms = case["forms"]
     n = case["n"]
     msgs = []
+    # one model object and one pair of input matrices, used for a whole history of calls (as a caller would)
+    S_in, H_in, V_in, E_in = to_form(S, forms[0]), to_form(H, forms[1]), V.copy(), E.copy()
     try:
-        out = call(S, H, V, E, T, D, forms)
+        with quiet():
+            model = SQRA(energies=E_in, volumes=V_in, distances=H_in, surfaces=S_in)
+            out = model.get_rate_matrix(D=D, T=T)
     except Exception as e:
         return [f"exception {type(e).__name__}: {e}"]
     if out.shape != (n, n):
@@ -102,17 +107,27 @@ def judge(case):
                 break
     if msgs:
         return msgs
-    # (d) energy shift invariance
+    # (e) linear in D - on the same model object, then the first setting again (the matrix is a function of the inputs,
+    #     not of what was computed before)
+    a = float(case["dscale"])
+    with quiet():
+        Qa = np.asarray(model.get_rate_matrix(D=a * D, T=T).toarray())
+        Qagain = np.asarray(model.get_rate_matrix(D=D, T=T).toarray())
+    if not np.allclose(Qa, a * Q, rtol=1e-12, atol=TINY * max(1.0, a)):
+        msgs.append(f"not linear in D (factor {a}) on a second call of the same model")
+    if not np.array_equal(Qagain, Q):
+        msgs.append("a repeated call with the same D, T on the same model gives a different matrix")
+    # (d) energy shift invariance - a second model built on the very same input matrices
     c = float(case["shift"])
-    Qc = np.asarray(call(S, H, V, E + c, T, D, forms).toarray())
+    with quiet():
+        Qc = np.asarray(SQRA(energies=E + c, volumes=V_in, distances=H_in, surfaces=S_in).get_rate_matrix(D=D, T=T).toarray())
     if not np.allclose(Qc, Q, rtol=1e-8, atol=TINY):
         i, j = np.unravel_index(np.argmax(np.abs(Qc - Q) / (np.abs(Q) + 1e-300)), Q.shape)
         msgs.append(f"not invariant under E+{c}: [{i},{j}] {Q[i, j]!r} -> {Qc[i, j]!r}")
-    # (e) linear in D
-    a = float(case["dscale"])
-    Qa = np.asarray(call(S, H, V, E, T, a * D, forms).toarray())
-    if not np.allclose(Qa, a * Q, rtol=1e-12, atol=TINY * max(1.0, a)):
-        msgs.append(f"not linear in D (factor {a})")
+    # the caller's inputs are still what was passed in
+    if not (np.array_equal(np.asarray(S_in.toarray()), S) and np.array_equal(np.asarray(H_in.toarray()), H)
+            and np.array_equal(V_in, V) and np.array_equal(E_in, E)):
+        msgs.append("get_rate_matrix modified its input matrices / arrays")
     # (f) storage-form independence
     for other in (["csr", "csr"], ["coo", "coo"], ["coo+coo", "coo+coo"]):
         if other != list(forms):
